@@ -115,7 +115,7 @@ func (s AtomSet) exported() AtomSet {
 	}
 	c := emptySet()
 	for a := range s.m {
-		if !strings.HasPrefix(a, "nn:") {
+		if !strings.HasPrefix(a, "nn:") && !strings.Contains(a, "=>") {
 			c.m[a] = true
 		}
 	}
@@ -198,6 +198,12 @@ type Derivation struct {
 type RuleSet struct {
 	Atoms  []AtomDef
 	Derive []Derivation
+	// Complement lists pairs of mutually exclusive, exhaustive atoms about the
+	// same value (e.g. a flag being true / false). At a join of a state holding
+	// A with a state holding B the analysis keeps "A=>X" for facts X known only
+	// on the A side, and re-establishes X where A is generated again (the
+	// `(a && p) || (!a && q)` shape, which tests a twice).
+	Complement [][2]Atom
 }
 
 // Matcher gives atom definitions access to the program and the function under
@@ -373,12 +379,20 @@ func isErrorType(t types.Type) bool {
 }
 
 func (f *Flow) close(s AtomSet) AtomSet {
-	if s.top || len(f.RS.Derive) == 0 {
+	if s.top || (len(f.RS.Derive) == 0 && len(f.RS.Complement) == 0) {
 		return s
 	}
 	changed := true
 	for changed {
 		changed = false
+		if len(f.RS.Complement) > 0 {
+			for a := range s.m {
+				if i := strings.Index(a, "=>"); i > 0 && s.m[a[:i]] && !s.m[a[i+2:]] {
+					s = s.with(a[i+2:])
+					changed = true
+				}
+			}
+		}
 		for _, d := range f.RS.Derive {
 			if s.m[d.Head] {
 				continue
@@ -397,6 +411,32 @@ func (f *Flow) close(s AtomSet) AtomSet {
 		}
 	}
 	return s
+}
+
+// meet is the join of the must analysis: intersection, plus conditional facts
+// for complementary atoms.
+func (f *Flow) meet(a, b AtomSet) AtomSet {
+	r := a.meet(b)
+	if a.top || b.top || len(f.RS.Complement) == 0 {
+		return r
+	}
+	for _, cp := range f.RS.Complement {
+		for _, pr := range [][2]Atom{{cp[0], cp[1]}, {cp[1], cp[0]}} {
+			if a.m[pr[0]] && b.m[pr[1]] {
+				for x := range a.m {
+					if !b.m[x] && !strings.Contains(x, "=>") && !strings.HasPrefix(x, "nn:") && x != pr[0] {
+						r = r.with(pr[0] + "=>" + x)
+					}
+				}
+				for y := range b.m {
+					if !a.m[y] && !strings.Contains(y, "=>") && !strings.HasPrefix(y, "nn:") && y != pr[1] {
+						r = r.with(pr[1] + "=>" + y)
+					}
+				}
+			}
+		}
+	}
+	return r
 }
 
 // edgeOut returns the state flowing along edge b -> succ index i.
@@ -421,7 +461,7 @@ func (f *Flow) edgeOut(b *ssa.BasicBlock, out AtomSet, i int) AtomSet {
 				st = st.with(in.gen[i]...)
 				st, _ = f.applySums(st, in.sum[i])
 			}
-			acc = acc.meet(st)
+			acc = f.meet(acc, st)
 		}
 		return f.blockOut(b, acc)
 	}
@@ -525,11 +565,15 @@ func (f *Flow) runFunc(fn *ssa.Function) {
 			edgeChanged := !hadEdge || !oldEdge.equal(eo)
 			f.edgeSt[ek] = eo
 			old, seen := f.in[succ]
-			var nw AtomSet
-			if !seen {
-				nw = eo
-			} else {
-				nw = old.meet(eo)
+			// IN[succ] = join over the current states of all reached incoming edges
+			nw := topSet()
+			for _, pb := range succ.Preds {
+				if es, ok := f.edgeSt[[2]*ssa.BasicBlock{pb, succ}]; ok {
+					nw = f.meet(nw, es)
+				}
+			}
+			if succ == fn.Blocks[0] {
+				nw = f.meet(nw, f.close(entry))
 			}
 			if _, isPhiCond := f.phiGen[succ]; isPhiCond && edgeChanged && seen && !inWork[succ] {
 				work = append(work, succ)
